@@ -37,9 +37,32 @@ func like(left, right string) (string, error) {
 		return fmt.Sprintf("%s ~ %s", left, right), nil
 	}
 
-	right = strings.ReplaceAll(right, "*", "%")
-	right = strings.ReplaceAll(right, "?", "_")
-	return fmt.Sprintf("%s SIMILAR TO %s", left, right), nil
+	return fmt.Sprintf("%s SIMILAR TO %s", left, wildcardToSimilar(right)), nil
+}
+
+// wildcardToSimilar translates the wildcards of a lucene pattern to their SIMILAR TO counterparts:
+// * becomes % and ? becomes _. A character that is escaped with a backslash is not a wildcard and is
+// copied together with its backslash, which SIMILAR TO understands as an escape as well.
+func wildcardToSimilar(in string) string {
+	var sb strings.Builder
+	escaped := false
+	for _, r := range in {
+		switch {
+		case escaped:
+			escaped = false
+			sb.WriteRune(r)
+		case r == '\\':
+			escaped = true
+			sb.WriteRune(r)
+		case r == '*':
+			sb.WriteByte('%')
+		case r == '?':
+			sb.WriteByte('_')
+		default:
+			sb.WriteRune(r)
+		}
+	}
+	return sb.String()
 }
 
 func likeParam(left, right string, params []any) (string, error) {
